@@ -350,8 +350,10 @@ def make_points(rng, full_cell, nl, place, n):
         far = rng.random(n) < 0.3
         f[far] += rng.integers(-5, 6, (int(far.sum()), dim))
     if rng.random() < 0.2 and n > 3:
-        # points exactly on cell faces / corners (fractional 0) and exact periodic duplicates are avoided: images must stay distinct
-        f[0, :nl] = 0.0
+        f[0, :nl] = 0.0  # a point exactly on a cell face / corner (fractional coordinate 0)
+    if rng.random() < 0.1 and n > 3:
+        f[1] = f[0]  # two parent points at the same place: distinct indices, both must appear
+        f[2, :nl] = f[0, :nl] + rng.integers(-2, 3, nl)  # a parent point that is (nearly) a periodic image of another one
     return f @ full_cell
 
 
